@@ -1,0 +1,45 @@
+//go:build verif
+
+package msgstorage
+
+import (
+	"sort"
+
+	"github.com/valinurovam/garagemq/amqp"
+	"github.com/valinurovam/garagemq/interfaces"
+)
+
+// VerifNewMsgStorage builds a MsgStorage exactly like NewMsgStorage but does not start
+// periodicPersist, so that a verification harness decides when persist runs.
+// Close() must not be called on it (nobody reads closeCh); close the engine directly.
+func VerifNewMsgStorage(db interfaces.DbStorage, protoVersion string) *MsgStorage {
+	msgStorage := &MsgStorage{
+		db:            db,
+		protoVersion:  protoVersion,
+		closeCh:       make(chan bool),
+		confirmSyncCh: make(chan *amqp.Message, 4096),
+		writeCh:       make(chan struct{}, 5),
+	}
+	msgStorage.cleanPersistQueue()
+	return msgStorage
+}
+
+// VerifPersist runs one persist() synchronously.
+func (storage *MsgStorage) VerifPersist() {
+	storage.persist()
+}
+
+// VerifPending returns the sorted keys of the three pending maps.
+func (storage *MsgStorage) VerifPending() (add []string, update []string, del []string) {
+	storage.persistLock.Lock()
+	defer storage.persistLock.Unlock()
+	keys := func(m map[string]*amqp.Message) []string {
+		out := make([]string, 0, len(m))
+		for k := range m {
+			out = append(out, k)
+		}
+		sort.Strings(out)
+		return out
+	}
+	return keys(storage.add), keys(storage.update), keys(storage.del)
+}
